@@ -193,6 +193,15 @@ class CompleteWorkflowHandler(StabilizeHandler[CompleteWorkflow]):
                     return WorkflowStatus.TERMINAL
                 return WorkflowStatus.SUCCEEDED
 
+        # A stage that is explicitly waiting (SUSPENDED for a signal, PAUSED for a
+        # resume) is not stuck: do not spend the wait budget on it - after
+        # max_stage_wait_retries re-polls the workflow would be marked TERMINAL
+        # while it legitimately waits. Stop polling; when the waiting stage is
+        # signalled, resumed or canceled, its completion pushes a fresh
+        # CompleteWorkflow.
+        if WorkflowStatus.SUSPENDED in statuses or WorkflowStatus.PAUSED in statuses:
+            return None
+
         # Still running - check retry count before re-queuing
         retry_count = getattr(message, "retry_count", 0) or 0
         max_retries = self.handler_config.max_stage_wait_retries
